@@ -1,6 +1,7 @@
 package main
 
 import (
+	"fmt"
 	"bytes"
 	"encoding/base64"
 	"net/http"
@@ -21,7 +22,7 @@ func (pxCodec) MarshalAppend(b []byte, m proto.Message) ([]byte, error) {
 }
 func (pxCodec) Unmarshal(b []byte, m proto.Message) error { return proto.Unmarshal(b, m) }
 
-func buildGetTranscoder(backend http.Handler, codecs []string, noCompress bool, maxGet uint32) (*vanguard.Transcoder, error) {
+func buildGetTranscoder(backend http.Handler, codecs []string, noCompress bool, maxGet uint32, idem bool) (*vanguard.Transcoder, error) {
 	opts := []vanguard.ServiceOption{vanguard.WithTargetProtocols(vanguard.ProtocolConnect), vanguard.WithTargetCodecs(codecs...)}
 	if noCompress {
 		opts = append(opts, vanguard.WithNoTargetCompression())
@@ -30,6 +31,9 @@ func buildGetTranscoder(backend http.Handler, codecs []string, noCompress bool, 
 		opts = append(opts, vanguard.WithMaxGetURLBytes(maxGet))
 	}
 	svc := vanguard.NewService(libraryService, backend, opts...)
+	if idem {
+		svc = vanguard.NewServiceWithSchema(idemServiceDesc(libraryService), backend, opts...)
+	}
 	return vanguard.NewTranscoder([]*vanguard.Service{svc}, vanguard.WithCodec(func(vanguard.TypeResolver) vanguard.Codec { return pxCodec{} }))
 }
 
@@ -49,6 +53,11 @@ func init() {
 				meth = rpcMethod{Service: libraryService, Name: "DeleteBook", RestMethod: "DELETE"}
 				msg = &testv1.DeleteBookRequest{Name: name}
 			}
+			// the same method declared IDEMPOTENT (not NO_SIDE_EFFECTS): GET is not allowed either
+			idem := nse && r.chance(1, 4)
+			if idem {
+				nse = false
+			}
 			form := pick(r, []int{formConnectGet, formConnectGet, formREST, formConnectPost, formGRPC, formGRPCWeb})
 			clientCodec := pick(r, []string{"proto", "json"})
 			if clientCodec == serverCodec && form != formREST {
@@ -66,7 +75,7 @@ func init() {
 			probe := func(maxGet uint32) (scenarioResult, bool) {
 				var res scenarioResult
 				backend := scriptedBackend(&res.Backend, []action{{Op: "readall", N: 512}, {Op: "status", N: 200}})
-				tc, err := buildGetTranscoder(backend, []string{serverCodec}, noCompress, maxGet)
+				tc, err := buildGetTranscoder(backend, []string{serverCodec}, noCompress, maxGet, idem)
 				if err != nil {
 					return res, false
 				}
@@ -81,7 +90,7 @@ func init() {
 						allow = v[0]
 					}
 					c.emit(Case{Suite: "getpost.reject", In: L{int64(form), nse, B(spec.build().Method)}, Out: L{int64(first.Rec.status()), B(allow)},
-						Tags: []string{"getpost:rejected", "getpost.form:" + formNames[form]}})
+						Tags: []string{"getpost:rejected", "getpost.form:" + formNames[form], fmt.Sprintf("getpost.idem:%v", idem)}})
 				}
 				continue
 			}
@@ -112,7 +121,7 @@ func init() {
 				serverComp = "gzip"
 				data = gzipBytes(data)
 			}
-			cfg := e2eConfig{Service: libraryService, Protocols: []vanguard.Protocol{vanguard.ProtocolConnect}, Codecs: []string{serverCodec}, NoCompress: noCompress, MaxGet: maxGet}
+			cfg := e2eConfig{Service: libraryService, Protocols: []vanguard.Protocol{vanguard.ProtocolConnect}, Codecs: []string{serverCodec}, NoCompress: noCompress, MaxGet: maxGet, Idem: idem}
 			var mconf any
 			for _, m := range tconfV(cfg)[0].(L) {
 				if rStrHex(m.(L)[0]) == meth.path() {
@@ -126,7 +135,7 @@ func init() {
 				q = res.Backend.RawQuery
 			}
 			c.emit(Case{Suite: "serve.getline", In: in, Out: L{isGet, B(q)}, Tags: []string{"getpost:" + tag, "getpost.form:" + formNames[form], "getpost.codec:" + serverCodec,
-				"getpost.issued:" + res.Backend.Method}})
+				"getpost.issued:" + res.Backend.Method, fmt.Sprintf("getpost.idem:%v", idem)}})
 			// monitor input: what the backend can decode, from GET query or POST body, against the client's message
 			var got []byte
 			if isGet {
@@ -147,7 +156,7 @@ func init() {
 				}
 			}
 			dec := meth.NewReq
-			if !nse {
+			if meth.Name == "DeleteBook" {
 				dec = func() proto.Message { return &testv1.DeleteBookRequest{} }
 			}
 			gotMsg := dec()
